@@ -1,6 +1,6 @@
-SOURCES = ['Xdl.cpp', 'Var.cpp', 'String.cpp']
+SOURCES = ['Xdl.cpp', 'Var.cpp', 'String.cpp', 'File.cpp', 'TextFile.cpp']
 HARNESS = 'h_c05.cpp'
-ENV = ['vlibc.c']
+ENV = ['vlibc.c', 'vstdio.c']
 MODES = {0: 'XDL', 1: 'XDL pretty', 2: 'JSON', 3: 'JSON pretty'}
 
 
@@ -30,6 +30,9 @@ def instances(tier):
         for i in (0, 1, 3, 4, 6):
             add(9, i, 0, mode, 'object and array holding boundary double #%d (exponent and plain forms) followed by further items' % i)
     out.append({'entry': 'h_roundtrip', 'params': [0, 0, 0, 2], 'opts': {'timeout_ms': 200000}, 'bound': 'every int with |x| < 100000, JSON'})
+    for shift in ((-6, -4, -2, 0) if q else tuple(range(-9, 3))):
+        for xdl in (0, 1):
+            out.append({'entry': 'h_file_chunk', 'params': [shift, xdl], 'opts': {'maxsteps': 80000000}, 'bound': 'file of about 16.4 KB written and read back (%s): a string with a symbolic control character whose \\u00XX escape sits %d bytes from the 16382-byte read-chunk boundary' % ('XDL' if xdl else 'JSON', shift)})
     return out
 
 
